@@ -114,7 +114,7 @@ func (e *Engine) fieldClass(l *Loc) string {
 	for i := 0; i < st.NumFields(); i++ {
 		n := len(e.flatten(st.Field(i).Type()))
 		if l.Off >= off && l.Off < off+n || (n == 0 && l.Off == off && types.Identical(l.T, st.Field(i).Type())) {
-			return typeKey(l.Root) + "." + st.Field(i).Name()
+			return typeKey(l.Root) + "." + fieldName(st.Field(i))
 		}
 		off += n
 	}
